@@ -126,6 +126,9 @@ type World struct {
 
 	Times  verify.TimeSet
 	NowNil bool // verify with Options.Now == nil (Times must then be the real current time)
+	// FromDefault: Options() starts from verify.DefaultOptions() and fills in every setting (what a caller following
+	// the documentation does) instead of building the value itself
+	FromDefault bool
 	// PoolExtra: certificates the relying party's trust bundle lists next to the root (people put whole chains, or a
 	// renewed issuing-CA certificate, into bundles); used by Options when no pool is given
 	PoolExtra []*Cert
@@ -449,6 +452,10 @@ func (w *World) Options(l Level, g *Getter, pool *x509.CertPool) *verify.Options
 	}
 	ts := w.Times
 	o := &verify.Options{TrustedRoots: pool, Now: &ts}
+	if w.FromDefault {
+		o = verify.DefaultOptions()
+		o.TrustedRoots, o.Now, o.GetCollateral, o.CheckRevocations = pool, &ts, false, false
+	}
 	if w.NowNil {
 		o.Now = nil
 	}
